@@ -152,7 +152,9 @@ func RunA(t *testing.T, h Hooks, sc *Scenario, site *Site) *Result {
 		planFile := filepath.Join(site.Root, "shim-plan.json")
 		writeShimPlan(planFile, sc.Plan.Oneshot)
 		os.Setenv("VERIF_SHIM_PLAN", planFile)
-		os.Setenv("VERIF_SHIM_STATE", filepath.Join(site.Root, "shim-state"))
+		state := filepath.Join(site.Root, "shim-state")
+		os.RemoveAll(state)
+		os.Setenv("VERIF_SHIM_STATE", state)
 	}
 
 	pipe.SimCommandStage = run.Factory
